@@ -222,7 +222,8 @@ YIELD_PATS = ["await $B.checkpoint()", "await $B.cancel_shielded_checkpoint()", 
 
 
 def checkpoint_typestate(ctx: Ctx, rule: str, f: Func, effects=(), undos=(), regs=(), blocks=(), assume=None,
-                         instance="", native=True, env=None, require_yield=True, delegates=()):
+                         instance="", native=True, env=None, require_yield=True, delegates=(),
+                         require_undo=True):
     """R08-a automaton.
     CHK   cancellation check (checkpoint, checkpoint_if_cancelled, a really blocking await, a delegate)
     YIELD checkpoint, cancel_shielded_checkpoint, blocking await, delegate
@@ -264,7 +265,7 @@ def checkpoint_typestate(ctx: Ctx, rule: str, f: Func, effects=(), undos=(), reg
             if not chk:
                 return "returns without a cancellation check"
         elif kind.startswith("raise:"):
-            if eff:
+            if eff and require_undo:
                 return f"leaves by {kind[6:]} after its effect/registration without undoing it"
         return None
 
